@@ -483,8 +483,11 @@ func (e *env) step(s Step) {
 	w.emit(Event{K: evk, J: last.J, T: last.T, O: last.O})
 	w.st.Conf = ConfObs{}
 	w.mu.Unlock()
-	// steps are separated by 1 ms of virtual time
-	time.Sleep(time.Millisecond)
+	// steps are separated by 1 ms of virtual time (not the requests of a burst: they are accepted at the same instant, so
+	// that their start timers expire together and the callbacks run in whatever order the scheduler picks)
+	if !s.NoSep {
+		time.Sleep(time.Millisecond)
+	}
 	synctest.Wait()
 }
 
